@@ -1,0 +1,39 @@
+//go:build verif
+
+package p2pke
+
+import "sync/atomic"
+
+// Verification hooks (build tag verif): read-only views of session and channel
+// state, and a setter for the outbound counter (to reach MaxNonce in tests).
+
+func (s *Session) VerifHsIndex() uint8 { return s.hsIndex }
+func (s *Session) VerifNonce() uint64  { return atomic.LoadUint64(&s.nonce) }
+func (s *Session) VerifSetNonce(n uint64) {
+	atomic.StoreUint64(&s.nonce, n)
+}
+
+// VerifSlots reports, per slot (previous, current, next): 0 = empty, else
+// 1 + hsIndex, plus 100 if the session is an initiator.
+func (c *Channel) VerifSlots() (ret [3]int) {
+	c.mu.RLock()
+	defer c.mu.RUnlock()
+	for i, se := range c.sessions {
+		if se.Session != nil {
+			ret[i] = 1 + int(se.Session.hsIndex)
+			if se.Session.isInit {
+				ret[i] += 100
+			}
+		}
+	}
+	return ret
+}
+
+// VerifFireRekey / VerifFireHandshake run the timer callbacks synchronously.
+func (c *Channel) VerifFireRekey()     { c.onRekey() }
+func (c *Channel) VerifFireHandshake() { c.onHandshake() }
+
+const (
+	VerifMaxNonce           = MaxNonce
+	VerifNoncePostHandshake = noncePostHandshake
+)
